@@ -1,5 +1,6 @@
 import Tw.Model.Buffer
 import Tw.Proofs.Buffer
+import Tw.Proofs.BufferIdeal
 import Tw.Gen.Buffer
 
 /-!
@@ -179,6 +180,95 @@ theorem advance_refuses_overrun (v : View) (h : v.init ≤ v.mem.length) (n : Na
   · rw [if_pos (by omega)]
   · rw [if_neg (by omega)]
 
+/-! ## 7. every operation sequence: the model refines the ideal ("counts exactly") semantics
+
+`Tw/Proofs/BufferIdeal.lean` defines the *ideal* semantics the property describes in words: a view is
+just its capacity and the log of the bytes committed through it, in order (no memory, no counter);
+a write appends the fitting prefix to the log; a released nested view's log is appended to its
+parent's; the released outermost view's log is appended to the vector's contents (or becomes the
+slice reference).  A capped view has capacity `min`. -/
+
+/-- For every container kind, capacity, old contents, spare-memory content and **every** operation
+sequence (writes, extends, panicking iterators, `advance`, nested and capped views, reads with any
+reader, early exits, panics + unwinding):
+* the model of the code gives exactly the responses of the ideal semantics
+  (`Ok`/`Err(CapacityError)`, `remaining()`, the bytes of `initialized()` and of `read_buffer`,
+  panics);
+* every live view has the ideal view's capacity, its `initialized()` bytes are the ideal log — the
+  concatenation, in order, of what was committed through it and through its released children — and
+  its counter is the length of that log;
+* a vector's contents are the ideal contents (old contents followed by the logs of the released
+  outermost views), its length is their length, and its capacity is still `cap`; a slice keeps its
+  length; a slice reference is exactly the ideal slice. -/
+theorem model_refines_ideal_semantics (k : Kind) (cap : Nat) (old : List UInt8) (junk : UInt8)
+    (h : old.length ≤ cap) (ops : List Op) :
+    let m := (Sess.fresh (Store.fresh k cap old junk)).run ops
+    let i := (ISess.fresh (IStore.fresh k cap old)).run ops
+    m.2 = i.2 ∧
+    m.1.stack.length = i.1.stack.length ∧
+    (∀ p ∈ List.zip m.1.stack i.1.stack,
+      p.1.mem.length = p.2.cap ∧ p.1.initialized = some p.2.log ∧ p.1.init = p.2.log.length ∧
+      p.2.log.length ≤ p.2.cap) ∧
+    ((k = .vec ∨ k = .arr) → m.1.store.contents = i.1.store.data ∧
+      m.1.store.len = i.1.store.data.length ∧ m.1.store.buf.length = cap ∧ i.1.store.cap = cap) ∧
+    (k = .slice → m.1.store.contents.length = old.length) ∧
+    (k = .sref → m.1.store.contents = i.1.store.data) := by
+  intro m i
+  have key : Rel m.1 i.1 ∧ m.2 = i.2 := run_rel ops (fresh_rel k cap old junk h)
+  have hsame : i.1.store.Same (ISess.fresh (IStore.fresh k cap old)).store := ISess.run_same ops _
+  clear_value m i
+  obtain ⟨hrel, hresp⟩ := key
+  obtain ⟨hw, hs, hst, _⟩ := hrel
+  obtain ⟨hl, hz⟩ := stackRel_zip hst
+  refine ⟨hresp, hl, ?_, ?_, ?_, ?_⟩
+  · intro p hp
+    have hv := hz p hp
+    have hi := hv.init_eq
+    have hwf : p.1.init ≤ p.1.mem.length := hv.1
+    exact ⟨hv.2.1, by rw [View.initialized_eq hv.1, hv.2.2], hi, by rw [← hv.2.1, ← hi]; exact hwf⟩
+  all_goals
+    obtain ⟨sw, sk, sm⟩ := hs
+    have hik : i.1.store.kind = k := by rw [hsame.1]; cases k <;> rfl
+    have hmk : m.1.store.kind = k := sk.trans hik
+    intro hk
+  · have hcap : i.1.store.cap = cap := by
+      rw [hsame.2 (by rcases hk with e | e <;> subst e <;> simp [ISess.fresh, IStore.fresh])]
+      rcases hk with e | e <;> subst e <;> rfl
+    rcases hk with e | e <;> subst e <;> simp only [hmk] at sm <;>
+      exact ⟨sm.2.1, sm.2.2, sm.1.trans hcap, hcap⟩
+  · subst hk
+    simp only [hmk] at sm
+    have hcap : i.1.store.cap = old.length := by
+      rw [hsame.2 (by simp [ISess.fresh, IStore.fresh])]; rfl
+    simp only [Store.contents, hmk]
+    exact sm.trans hcap
+  · subst hk
+    simp only [hmk] at sm
+    simp only [Store.contents, hmk]
+    exact sm.2
+
+/-- No byte of the uninitialised spare capacity is ever observed: the responses of every operation
+sequence and the final contents of the container do not depend on what the spare memory held. -/
+theorem outputs_independent_of_uninitialized_memory (k : Kind) (hk : k = .vec ∨ k = .arr) (cap : Nat)
+    (old : List UInt8) (junk1 junk2 : UInt8) (h : old.length ≤ cap) (ops : List Op) :
+    let m1 := (Sess.fresh (Store.fresh k cap old junk1)).run ops
+    let m2 := (Sess.fresh (Store.fresh k cap old junk2)).run ops
+    m1.2 = m2.2 ∧ m1.1.store.contents = m2.1.store.contents ∧ m1.1.store.len = m2.1.store.len := by
+  intro m1 m2
+  obtain ⟨a1, _, _, a4, _, _⟩ := model_refines_ideal_semantics k cap old junk1 h ops
+  obtain ⟨b1, _, _, b4, _, _⟩ := model_refines_ideal_semantics k cap old junk2 h ops
+  exact ⟨a1.trans b1.symm, (a4 hk).1.trans (b4 hk).1.symm, (a4 hk).2.1.trans (b4 hk).2.1.symm⟩
+
+-- The ideal semantics does what the property says, e.g.: a write that does not fit reports the
+-- error and commits exactly the fitting prefix; the vector ends up as old ++ committed bytes.
+example :
+    ((ISess.fresh (IStore.fresh .vec 4 [0xa0])).run
+      [.openV [], .write [1], .openV [9], .write [2, 3, 4], .init, .init]).2 =
+      [.opened, .wrote true, .opened, .wrote false, .closed (some [2, 3]), .closed (some [1, 2, 3])] ∧
+    ((ISess.fresh (IStore.fresh .vec 4 [0xa0])).run
+      [.openV [], .write [1], .openV [9], .write [2, 3, 4], .init, .init]).1.store.data = [0xa0, 1, 2, 3] := by
+  decide
+
 -- non-vacuity: concrete sessions (a 4-byte vector holding 1 byte; nested + capped views; an error
 -- in the middle; a cap beyond the capacity)
 example :
@@ -187,5 +277,26 @@ example :
     r.1.store.contents = [0xa0, 1, 2, 3] ∧ r.1.store.len = 4 := by decide
 
 example : (View.writeAll ⟨[9, 9, 9], 0⟩ [[1], [2, 3], [4]]).2 = [.ok, .ok, .cap] := by decide
+
+-- the hypotheses of the release theorems are met by the states a session reaches, e.g. a 4-byte
+-- vector holding 1 byte with a view that committed 2 of its 3 bytes, and a parent/child pair
+example :
+    let s : Store := ⟨.vec, [0xa0, 0, 0, 0], 1⟩
+    let v : View := ⟨[1, 2, 0], 2⟩
+    (s.kind = .vec ∨ s.kind = .arr) ∧ s.len ≤ s.buf.length ∧ v.init ≤ v.mem.length ∧
+    v.mem.length ≤ s.buf.length - s.len ∧ (s.release v).contents = [0xa0, 1, 2] := by decide
+
+example :
+    let p : View := ⟨[1, 0, 0, 0], 1⟩
+    let c : View := ⟨[2, 3, 0], 2⟩
+    p.init ≤ p.mem.length ∧ c.init ≤ c.mem.length ∧ c.mem.length ≤ p.mem.length - p.init ∧
+    (p.writeBack c).initialized = some [1, 2, 3] := by decide
+
+-- an over-claiming reader is refused (panic, nothing committed); an early error leaves the vector as it was
+example :
+    ((Sess.fresh (Store.fresh .vec 4 [0xa0] 0)).run [.setr (.liar 9 0xee), .read []]).2 = [.done, .panic] ∧
+    ((Sess.fresh (Store.fresh .vec 4 [0xa0] 0)).run [.setr (.liar 9 0xee), .read []]).1.store.contents = [0xa0] ∧
+    ((Sess.fresh (Store.fresh .vec 4 [0xa0] 0)).run [.setr (.fail 0xdd), .read [2]]).2 = [.done, .readErr] := by
+  decide
 
 end Tw.Props.C19
